@@ -10,6 +10,16 @@ import sys
 
 V = os.path.dirname(os.path.dirname(os.path.abspath(__file__)))
 OVERRIDE_CHECK = {'C17-1': ['C17', 'C06']}      # seeds that are (also) caught by another property's check
+# seeds that stopped being valid seeds when a genuine defect was repaired in /repo (kept for the record, with what happened)
+OBSOLETE = {
+    'C07-2': 'after the F3 repair (459ec04) 8 pinned tests fail with this change: it no longer satisfies "passes the existing tests"; the C07 check exits 1 on it as well',
+    'C05-4': 'after the F3 repair a pinned test (test_invalid_message_id_on_response) fails with this change; the C05 check exits 1 on it as well',
+    'C01-5': 'led to finding F16: the seed made ONLY the responder compute SKEYSEED with the old PRF (which is what RFC 7296 2.18 prescribes); the unchanged tree used the '
+             'new PRF on both sides. After the F16 repair (fb61330, both sides RFC-conformant) the patch no longer applies. Before the repair the C01 check missed it '
+             '(no suite changed the PRF on rekey); suite prf_change was added and fails on the pre-repair tree',
+    'C17-5': 'cannot manifest after the F15 repair (1d65f0d): CHILD_SA SPIs that are not 4 bytes long are refused before they reach the kernel layer, so the demo passes on the '
+             'patched tree. Its author\'s closing remark led to finding F15',
+}
 
 
 def evaluate(seed):
@@ -42,6 +52,10 @@ def evaluate(seed):
         'raw': out[-1500:],
     }
     meta['detected'] = bool(m2 and int(m2.group(3)) == 1 and int(m2.group(4)) > 0)
+    if seed in OBSOLETE:
+        meta['obsolete'] = OBSOLETE[seed]
+    if 'PATCH DOES NOT APPLY' in out:
+        meta['verified_here']['note'] = 'the patch no longer applies to the current (repaired) tree'
     json.dump(meta, open(os.path.join(d, 'meta.json'), 'w'), indent=1)
     return meta
 
